@@ -218,6 +218,117 @@ def stats(results):
     return dist, nontrivial
 
 
+# ----------------------------------------------------------------------------------------------------------
+# Part B: system contracts (exhaustive method x caller enumeration on the byte code)
+ABI_FILES = [(0, 'syscontracts/xibc_packet/packet.json'), (1, 'syscontracts/xibc_endpoint/Endpoint.json'),
+             (2, 'syscontracts/xibc_endpoint/Execute.json')]
+CALLERS = {0: 'EOA', 1: 'contract(proxy)', 2: 'via-execute', 3: 'packet-calldata', 4: 'xibc-module', 5: 'aggregate-module',
+           6: 'packet-contract', 7: 'endpoint-contract', 8: 'packet-contract(nested)'}
+CONTRACTS = {0: 'packet', 1: 'endpoint', 2: 'execute'}
+
+
+def abi_nonview():
+    """independent reading of the ABIs of the tree under test: set of (contract id, method) that are not view/pure"""
+    out = set()
+    for cid, rel in ABI_FILES:
+        j = json.load(open(os.path.join(vlib.REPO, rel)))
+        abi = j['abi']
+        if isinstance(abi, str):
+            abi = json.loads(abi)
+        for e in abi:
+            if e.get('type') == 'function' and e.get('stateMutability') not in ('view', 'pure'):
+                out.add((cid, e['name']))
+    return out
+
+
+def cobs_term(r):
+    return '{| co_contract := %d; co_method := %s; co_caller := %d; co_effect := %s; co_same := %s |}' % (
+        r['contract'], cb(r['method']), r['caller'], coq_bool(r['effect']), coq_bool(r['same']))
+
+
+def run_contracts(run, seed, tag):
+    outp = os.path.join(run.work, '%s.jsonl' % tag)
+    rc, o = vlib.run_harness('c06', ['-mode', 'contracts', '-seed', seed, '-out', outp])
+    if rc != 0:
+        return None, o
+    return vlib.read_jsonl(outp), ''
+
+
+def eval_contracts(workdir, rows, tag='contracts'):
+    with _LOCK:
+        idefs, terms = intern_defs(lambda: [cobs_term(r) for r in rows])
+    defs = idefs + 'Definition obs : list cobs := %s.\n' % coq_list(terms)
+    res = vlib.coq_eval_lists(workdir, tag + '.v', HEADER, defs, [('F', 'contract_failures obs'), ('U', 'undemonstrated obs')])
+    f = vlib.parse_nat_tuples(res.get('F'), 2)
+    u = vlib.parse_nat_tuples(res.get('U'), 1)
+    if res['_rc'] != 0 or f is None or u is None:
+        return None, res['_out'][-3000:]
+    return f, [x[0] for x in u]
+
+
+def part_b(run):
+    """returns False if the stage could not run"""
+    seeds = [run.seed * 100 + i for i in range(run.budget(2, 12))]
+    allrows, matrix = [], {}
+    for i, sd in enumerate(seeds):
+        rows, log = run_contracts(run, sd, 'contracts_%d' % i)
+        if rows is None:
+            run.violation(dict(kind='harness-crashed', stage='contracts', log=log[-3000:]), no_input=True)
+            return False
+        setup = [r for r in rows if r['contract'] < 0]
+        rows = [r for r in rows if r['contract'] >= 0]
+        if setup:
+            run.violation(dict(kind='contract-setup-failed', notes=[r.get('note') for r in setup],
+                               explanation='the module-side set-up calls (bindToken / supply limit) failed; the enumeration '
+                                           'cannot demonstrate accepted module calls'), no_input=True)
+            return False
+        fails, undem = eval_contracts(run.work, rows, 'contracts_%d' % i)
+        if fails is None:
+            run.violation(dict(kind='coq-evaluation-failed', stage='contracts', log=undem), no_input=True)
+            return False
+        # exhaustiveness against an independent reading of the ABI files of the tree under test
+        want = abi_nonview()
+        got = {(r['contract'], r['method']) for r in rows if r['mut'] not in ('view', 'pure')}
+        missing = sorted(want - got) + sorted(m for m in want if {r['caller'] for r in rows if (r['contract'], r['method']) == m} < set(range(8)))
+        if missing:
+            run.violation(dict(kind='enumeration-incomplete', missing=missing,
+                               explanation='not every non-view method of the ABIs was exercised from every caller kind'), no_input=True)
+        for idx, k in fails:
+            r = rows[idx]
+            if k == 21:
+                run.violation(dict(kind='contract-access', code=k, what=KINDS[k], contract=CONTRACTS[r['contract']], method=r['sig'],
+                                   caller=CALLERS[r['caller']], call_data=r['args'], effect=r['effect'], state_unchanged=r['same'],
+                                   note=r.get('note'), harness_seed=sd, variant=r['variant'],
+                                   replay_hint='harness/bin/c06 -mode contracts -seed %d' % sd),
+                              name='replay_contract_%s_%s_%d.json' % (CONTRACTS[r['contract']], r['method'], r['caller']))
+            else:
+                run.violation(dict(kind='contract-enumeration', code=k, what=KINDS.get(k), contract=r['contract'], method=r['method'],
+                                   caller=CALLERS[r['caller']], note=r.get('note')), no_input=True,
+                              name='replay_contract_enum_%d.json' % idx)
+            if len(run.violations) >= 4:
+                break
+        if undem and i == 0:
+            run.violation(dict(kind='contract-enumeration', what='privileged methods (indices into AuthCheck.classification) never '
+                               'accepted from a legitimate caller or not tried from every non-module caller kind', indices=undem),
+                          no_input=True, name='replay_contract_undemonstrated.json')
+        allrows += rows
+        for r in rows:
+            key = (CONTRACTS[r['contract']] + '.' + r['method'], CALLERS[r['caller']])
+            e = matrix.setdefault(key, dict(accepted=0, rejected=0, changed=0))
+            e['accepted' if r['effect'] else 'rejected'] += 1
+            if not r['same']:
+                e['changed'] += 1
+    priv_rej = sorted({k[0] + ' <- ' + k[1] for k, v in matrix.items() if v['accepted'] == 0 and v['changed'] == 0})
+    accepted = sorted({k[0] + ' <- ' + k[1] for k, v in matrix.items() if v['accepted'] > 0})
+    run.coverage['contracts'] = dict(
+        attempts=len(allrows), methods=len({(r['contract'], r['method']) for r in allrows}), caller_kinds=len(CALLERS),
+        argument_variants_per_method=3 * len(seeds), harness_seeds=seeds,
+        accepted_pairs=accepted, rejected_unchanged_pairs=len(priv_rej),
+        note='EXHAUSTIVE over non-view methods x caller kinds, SAMPLED over arguments; validates (does not prove) the msg.sender '
+             'checks of the byte code')
+    return True
+
+
 def check(run):
     pr = run.proof_stage()
     ok, out = vlib.build_harness(['c06'])
@@ -256,6 +367,9 @@ def check(run):
         'starts with "relayers"',
         'a transaction carrying msg.Signer = s is signed by the account s decodes to (SDK ante handler)']
 
+    part_b(run)
+    run.coverage['evaluations'] = nsteps + run.coverage.get('contracts', {}).get('attempts', 0)
+
     reported = set()
     for h, s, k in ff:
         if h in reported:
@@ -268,7 +382,7 @@ def check(run):
                            observed=results[h]['obs'][s]), name='replay_h%d.json' % h)
         if len(run.violations) >= 3:
             break
-    if not run.violations:
+    if not [v for v in run.violations if 'replay_h' in v[0]]:
         for h, s, k in mm[:1]:
             spec = dict(results[h]['spec'])
             spec['steps'] = spec['steps'][:s + 1]
